@@ -350,6 +350,8 @@ def c13(k, ctx):
     ctx.tlc_mc("MC_BerEngine", "MC_BerEngine_live.cfg", coverage=False)                       # liveness: termination under weak fairness, all fault modes
     ctx.tlc_mc("MC_BerEngine", "MC_BerEngine_neg.cfg", expect_violation=True)                 # collector keeps a sender + stage panic: blocked in recv (D7)
     ctx.tlc_mc("MC_BerEngine", "MC_BerEngine_neg2.cfg", expect_violation=True)                # join().unwrap() on a panicked worker
+    ctx.tlc_mc("MC_BerEngine", "MC_BerEngine_neg3.cfg", expect_violation=True)                # bounded result channel: worker blocked in send at join
+    ctx.tlc_mc("MC_BerEngine", "MC_BerEngine_neg4.cfg", expect_violation=True, coverage=False)  # ... which violates Termination (liveness)
     if ctx.thorough:
         # extra evidence only: Apalache inductive invariant for the unbounded statistics rule (never changes the exit status)
         ap = os.path.join(k.SPEC, "apalache")
